@@ -23,6 +23,12 @@ CHECKS = {
             'predicate; for every accepted table every ordered subset (incl. empty / None) is queried with and without '
             'indices and the seven classes checked to partition it with each geo in its row\'s class; malformed variants '
             '(missing/duplicate columns, duplicate ids, bad entries) are generated per case.', '§5 C16'),
+    'C17': ('three-valued domain-table oracle over a complete one-field boundary grid plus random field pairs',
+            'Every field of TBRMMDesignParameters is set, from a valid base object, to every value of a boundary grid '
+            '(bounds, nextafter neighbours, 0, negatives, +-inf, NaN, None, wrong types / arity / order) and the real '
+            'constructor\'s accept / reject decision and exception type are compared with a table written from the '
+            'class docstring (values the docstring is silent on are executed but not judged); pairs of fields, '
+            'documented defaults and field-wise equality are checked as well.', '§5 C17'),
 }
 
 NOT_YET = {}
